@@ -2,7 +2,9 @@
 EXTENDS PrefsContract, IOUtils
 VARIABLES tid, l, bad
 Traces == ndJsonDeserialize(IOEnv.TRACE_FILE)
-StepClause(pre, ev) == IF ev.post.effective # ev.a.prefs THEN "AssignmentTakesEffect" ELSE PrefsFailing(ev.a, ev.post)
+StepClause(pre, ev) == IF ev.post.effective # ev.a.prefs THEN "AssignmentTakesEffect"
+                       ELSE IF PrefsFailing(ev.a, ev.post) # "ok" THEN PrefsFailing(ev.a, ev.post)
+                       ELSE IF ev.post.afterdefaults # Default THEN "UseDefaultsResetsEveryPreference" ELSE "ok"
 StateClause(o) == "ok"
 INSTANCE Monitor
 =============================================================================
